@@ -64,12 +64,18 @@ func (c02) Generate(r *rand.Rand, t string) []*Case {
 		valid := r.Intn(3) == 0
 		if valid {
 			stream = "valid+damage"
+			// number tokens in non-canonical spellings (0X0F, 0O755, 1E6, 0123i ...) written through
+			// Op / Id, as call arguments and as initialisers: gofmt rewrites them, so the formatted
+			// output differs from the raw rendering by exactly the number normalisation of go/format
+			g.RawNumberRate = 3
 		}
+		damaged := false
 		for j := 0; j < nst; j++ {
 			var st *term.Stmt
 			if valid {
 				st = g.SimpleDecl(j)
 				if r.Intn(4) == 0 { // damage: drop, duplicate or swap items
+					damaged = true
 					k := r.Intn(len(st.Items))
 					switch r.Intn(3) {
 					case 0:
@@ -95,8 +101,18 @@ func (c02) Generate(r *rand.Rand, t string) []*Case {
 			h = append(h, hist.Op{Kind: "rcode", F: 0, Code: st})
 		}
 		h = append(h, hist.Op{Kind: "imports", F: 0})
+		tags := []string{fmt.Sprintf("paths=%d", len(paths)), fmt.Sprintf("noformat=%v", nf)}
+		tags = append(tags, SetupTags(h)...) // header= pkgcomment= header-twice hint-repeated
+		if g.RawNumbers > 0 {
+			tags = append(tags, "noncanonical-number")
+			if !damaged && !nf {
+				// every declaration is intact and the formatter is on: the render succeeds and gofmt
+				// has to rewrite (or, for the borderline spellings, keep) the token
+				tags = append(tags, "noncanonical-number-formatted")
+			}
+		}
 		out = append(out, &Case{Hist: h, Stream: stream, NonTrivial: true,
-			Meta: map[string]interface{}{"badlit": bad}, Tags: []string{fmt.Sprintf("paths=%d", len(paths)), fmt.Sprintf("noformat=%v", nf)}})
+			Meta: map[string]interface{}{"badlit": bad}, Tags: tags})
 	}
 	return out
 }
@@ -197,6 +213,8 @@ func (c02) Regressions() []*Case {
 	}
 	dict := &term.Dict{Pairs: [][2]term.Node{{term.S(term.Id("a")), term.S(term.Lit(1))}}}
 	return []*Case{
+		mk("typed-nil-group-before-block",
+			term.S(term.Named("Func"), term.Id("f"), term.G("Params"), term.NilGroup{}, term.G("Block", term.S(term.Id("x"), term.G("Call"))))),
 		mk("values-dict-plus-item-panics",
 			term.S(term.Named("Var"), term.Id("x"), term.Op("="), term.Id("T"), term.G("Values", dict, term.S(term.Null())))),
 		mk("gofmt-hoists-plus-build-comment",
